@@ -371,6 +371,7 @@ func (l c17) Exec(env *core.Env) *core.Result {
 		startSim  time.Duration
 		returnSim time.Duration
 		cancelSim time.Duration = -1
+		started   bool          // the call under study has begun (the prelude, if any, is over)
 	)
 	ctx := context.Background()
 	var cancel context.CancelFunc
@@ -519,7 +520,7 @@ func (l c17) Exec(env *core.Env) *core.Result {
 			preN = len(simexec.Log)
 			res.Probe("plugin_object_reused_after_the_executable_was_replaced")
 		}
-		startSim = sim.Now()
+		startSim, started = sim.Now(), true
 		if err != nil {
 			callErr, returned, returnSim = err, true, sim.Now()
 			hostReturned = true
@@ -556,6 +557,16 @@ func (l c17) Exec(env *core.Env) *core.Result {
 	core.ReportPanics(res, sim, "C17")
 
 	// ---- oracle ----
+	if !started {
+		// the prelude (an honest call without a deadline, on the same plugin object) never came to an end - it may
+		// legitimately wait for a neighbour that holds the plugin for ever: there is no call under study to judge
+		res.Probe("call_under_study_never_started")
+		return res
+	}
+	if cancelSim >= 0 && cancelSim < startSim {
+		// the context had already ended when the call under study began: the bounded delay counts from its start
+		cancelSim = startSim
+	}
 	execLog := simexec.Log
 	if preN <= len(execLog) {
 		execLog = execLog[preN:]
